@@ -252,7 +252,12 @@ def validate_trace(module, cfg, trace, heap="3g", timeout_s=1800):
         raise ToolError("trace %s rejected by %s at line %d (harness broke a monitor assumption):\n%s" % (trace, module, r["rejected"], r["out"][-1500:]))
     elif r["rc"] != 0:
         raise ToolError("TLC failed on %s:\n%s" % (trace, r["out"][-3000:]))
-    return {"states": r["distinct"], "generated": r["generated"], "bad": bad, "wall": r["wall"], "violated": r["violated"]}
+    reports = {}
+    for m in re.finditer(r'<<"([A-Z-]+)-REPORT", ([0-9, ]+)>>', r["out"]):
+        reports[m.group(1)] = [int(x) for x in m.group(2).split(",")]
+    for m in re.finditer(r'<<"OBS-LATE-AFTER-PULL", (\d+)>>', r["out"]):
+        reports["OBS-LATE-AFTER-PULL"] = [int(m.group(1))]
+    return {"states": r["distinct"], "generated": r["generated"], "bad": bad, "wall": r["wall"], "violated": r["violated"], "reports": reports}
 
 
 # --------------------------------------------------------------------------------- known findings
@@ -324,16 +329,20 @@ def write_evidence(prop, tier, seed, level, coverage, wall, violations, assumpti
         json.dump(ev, f, indent=1)
 
 
-def sample_lines(trace, want=("Send", "Emit", "Handle", "Deliver", "Quiesced"), n=6):
+def sample_lines(trace, want=None, n=6):
+    """A few actual lines of a trace: the first occurrence of each event kind (restricted to `want` if given)."""
     out = []
     seen = set()
     try:
         with open(trace) as f:
             for line in f:
                 ev = ev_of(line)
-                if ev in want and ev not in seen:
-                    seen.add(ev)
-                    out.append(json.loads(line))
+                if ev in seen or (want is not None and ev not in want):
+                    continue
+                seen.add(ev)
+                d = json.loads(line)
+                txt = json.dumps(d)
+                out.append(d if len(txt) < 1500 else {"ev": ev, "truncated": txt[:1500]})
                 if len(out) >= n:
                     break
     except Exception:
